@@ -707,9 +707,19 @@ type brokerMismatch struct {
 }
 
 // runBehaviour replays one behaviour of the Broker specification on a fresh real broker.
-func runBehaviour(steps []bStep, auth string, maxqos int, res *Result) *brokerMismatch {
+// brokerOwn: the tags of the running check ("" = all). A divergence of the session-store projection that belongs to
+// another property does not end the behaviour: what the connections see afterwards is still compared.
+var brokerOwn map[string]bool
+
+func runBehaviour(steps []bStep, auth string, maxqos int, res *Result) (result *brokerMismatch) {
 	r := newBrokerRun(auth, maxqos)
 	defer r.cleanup()
+	var foreign *brokerMismatch
+	defer func() {
+		if result == nil && foreign != nil {
+			result = foreign
+		}
+	}()
 	for i, st := range steps {
 		a := st.A
 		got := map[string][]bPkt{}
@@ -979,7 +989,13 @@ func runBehaviour(steps []bStep, auth string, maxqos int, res *Result) *brokerMi
 			if a.A == "refuse" {
 				tag = "C11"
 			}
-			return &brokerMismatch{fmt.Sprintf("%s %s: the session store holds %d sessions, specification %d", where, actDesc(a), n, st.Nsess), tag}
+			mm := &brokerMismatch{fmt.Sprintf("%s %s: the session store holds %d sessions, specification %d", where, actDesc(a), n, st.Nsess), tag}
+			if brokerOwn == nil || brokerOwn[tag] {
+				return mm
+			}
+			if foreign == nil {
+				foreign = mm
+			}
 		}
 		// compare
 		var names []string
@@ -1074,6 +1090,12 @@ func cmdBrokerReplay(a Args) {
 	auth := a.str("auth", "mockSuccess")
 	maxqos := a.num("maxqos", 2)
 	fragMode = a.num("frag", 0)
+	if o := a.str("own", ""); o != "" {
+		brokerOwn = map[string]bool{}
+		for _, t := range strings.Split(o, ",") {
+			brokerOwn[t] = true
+		}
+	}
 	retry := a.num("retry", 1)
 	err := readLines(a, func(line []byte) error {
 		var steps []bStep
@@ -1081,7 +1103,7 @@ func cmdBrokerReplay(a Args) {
 			return err
 		}
 		// the verdict is clear after many diverging behaviours (each may cost several time-outs): skip the rest of the shard
-		if res.Counts["known:"] >= 40 {
+		if res.Counts["ownmm"] >= 40 || res.Counts["known:"] >= 1500 {
 			res.Counts["skipped_after_violation"]++
 			return nil
 		}
@@ -1099,6 +1121,9 @@ func cmdBrokerReplay(a Args) {
 			}
 		}
 		if m != nil {
+			if brokerOwn == nil || brokerOwn[m.tag] {
+				res.Counts["ownmm"]++
+			}
 			var acts []string
 			for _, s := range steps {
 				acts = append(acts, s.A.A+actDesc(s.A))
